@@ -11,18 +11,18 @@ TECH = "contract harnesses on the real crate discharged by Kani/CBMC (full-domai
 
 CHECKS = {
     "C01": {
-        "text": "PARTIAL -- this check does not prove C01 end to end; it decides the receiver- and sender-side component obligations that are within the verifier's reach and the history lemma that connects them. Discharged on the real code (Kani/CBMC): Slot::{try_write_reader, unsplit, skip_until, consume, read_chunk, observers} against the view (start, filled bytes, end_allocated) on 8-byte buffers with symbolic offsets (bounded); Reassembler::allocate_slot / allocation_size / align_offset (full); and, modularly (Slot methods replaced by stubs that assert the callee precondition and assume exactly the Slot postconditions proved above, K <= 2 slots, thorough tier), Reassembler::{pop, pop_watermarked, read_chunk, skip, len, consumed_len, total_received_len, final_size, is_reading_complete} against the view (recv, start, final). Verus proves for every sequence of consistent writes (any order, multiplicity, overlap), pops and skips that what is delivered is a prefix of the sent stream and a clean end means the whole stream (layer L).",
+        "text": "PARTIAL -- this check does not prove C01 end to end; it decides the receiver- and sender-side component obligations that are within the verifier's reach and the history lemma that connects them. Discharged on the real code (Kani/CBMC): Slot::{try_write_reader, unsplit, skip_until, consume, read_chunk, observers} against the view (start, filled bytes, end_allocated) on 8-byte buffers with symbolic offsets (bounded); Reassembler::allocate_slot / allocation_size / align_offset (full); and, modularly (K = 0 shapes in the quick tier) (Slot methods replaced by stubs that assert the callee precondition and assume exactly the Slot postconditions proved above, K <= 2 slots, thorough tier), Reassembler::{pop, pop_watermarked, read_chunk, skip, len, consumed_len, total_received_len, final_size, is_reading_complete} against the view (recv, start, final). Verus proves for every sequence of consistent writes (any order, multiplicity, overlap), pops and skips that what is delivered is a prefix of the sent stream and a clean end means the whole stream (layer L).",
         "note": "NOT discharged: the Reassembler write path (write_at / write_reader / unsplit_range orchestration over the slot queue) -- every modular variant stayed in symbolic execution beyond 15-25 min; the write obligations of the lemma are therefore backed at Slot level only, and the write-rejection obligations (final-size contradiction, 2^62-1, state unchanged) only by Cursors::handle_reader_fin. ReceiveStream::on_data and the stream API layer (stream/api.rs), stream lookup, and retransmission scheduling are unverified glue; sender-side consistency is C12. A-aead for corrupted datagrams.",
         "design": "5/C01",
     },
     "C05": {
         "text": "Every codec is compared with an independent transcription of RFC 9000 16-19 (and RFC 9221 4) written without s2n-codec: varint encode/decode over all 2^62 values including the unsafe wide-write path and encode_updated, decoder totality and agreement with the reference parser on every input of 0..=9 bytes, packet-number wire form, and -- per frame type -- encoder output == oracle bytes with the announced size, decoder on oracle bytes (+ trailing bytes), exact-capacity writes; fixed-shape frames over full field domains, payload-carrying frames bounded (payload <= 4 bytes, stated per harness); agreement of the real decoders with the reference parser on arbitrary inputs (bounded by length); packet-header decode totality on arbitrary datagrams (bounded). Discharged by Kani/CBMC; the VarInt range arithmetic is additionally verified by Verus on the extracted bodies. Packet-number expansion (RFC A.3) and transport-parameter encodings are shared with C08 / C14.",
-        "note": "Quick tier = varint, packet numbers, MAX_DATA, MAX_STREAMS, PING/HANDSHAKE_DONE; all other frames are thorough tier (a full thorough pass is hours). NOT decided: ACK frame decoding and its reference agreement (timeouts), the FrameMut tag dispatch as a whole (each arm's decoder is covered, the dispatch table is not), full-domain mixing of all integer fields of ACK / NEW_CONNECTION_ID (length-class shapes instead). Per-frame decoders are called through decode_parameterized(tag) as the dispatch arm does.",
+        "note": "Quick tier = varint, packet numbers, MAX_DATA, MAX_STREAMS, PING/HANDSHAKE_DONE; all other frames are thorough tier (a full thorough pass is hours). The ACK range iterator (AckRangesIter::next: RFC 9000 19.3.1 arithmetic, negative packet number => None, totality) is under a one-step contract from an arbitrary state. NOT decided: whole-frame ACK decoding and its reference agreement (timeouts), the FrameMut tag dispatch as a whole (each arm's decoder is covered, the dispatch table is not), full-domain mixing of all integer fields of ACK / NEW_CONNECTION_ID (length-class shapes instead). Per-frame decoders are called through decode_parameterized(tag) as the dispatch arm does.",
         "design": "5/C05",
     },
     "C11": {
-        "text": "The anti-amplification counter of Path (on_bytes_received credits exactly 3x, on_bytes_transmitted debits, at_amplification_limit / transmission_constraint / clamp_datagram_size, validation only via handshake packet or matching PATH_RESPONSE, no other mutator credits or validates), a bounded history harness on the real Path, stateless_reset::encode_packet (strictly smaller than the trigger, unpredictable bits, token placement, None iff impossible; buffer <= 64 bytes) and the close sender's accounting of close packets are under contract, discharged by Kani/CBMC; Verus derives for every history what the contracts give (allowance >= 3*rx - tx; the stated bound under the hypothesis that no datagram exceeded the remaining allowance). The stated bound itself ('never starts a datagram once sent >= 3x received') FAILS on the pinned code -- the saturating counter forgets overshoot -- and is recorded as a known finding with residual obligations in force.",
-        "note": "NOT decided: the server side of version negotiation (Negotiator::on_packet: memory/time), client Initial padding, PTO arming while limited (recovery::Manager), whether the close sender is only invoked when not limited (ConnectionImpl). The multiplier is concrete per harness.",
+        "text": "The anti-amplification counter of Path (on_bytes_received credits exactly 3x, on_bytes_transmitted debits, at_amplification_limit / transmission_constraint / clamp_datagram_size, validation only via handshake packet or matching PATH_RESPONSE, no other mutator credits or validates), a bounded history harness on the real Path, stateless_reset::encode_packet (strictly smaller than the trigger, unpredictable bits, token placement, None iff impossible; buffer <= 64 bytes) the close sender's accounting of close packets are under contract, discharged by Kani/CBMC, and the Version-Negotiation size gate (Err for payloads < 1200) is verified by Verus on the statement extracted verbatim from Negotiator::on_packet; Verus derives for every history what the contracts give (allowance >= 3*rx - tx; the stated bound under the hypothesis that no datagram exceeded the remaining allowance). The stated bound itself ('never starts a datagram once sent >= 3x received') FAILS on the pinned code -- the saturating counter forgets overshoot -- and is recorded as a known finding with residual obligations in force.",
+        "note": "NOT decided: the rest of the server side of version negotiation (queueing, never in reply to VN: Negotiator::on_packet is beyond CBMC's memory/time), client Initial padding, PTO arming while limited (recovery::Manager), whether the close sender is only invoked when not limited (ConnectionImpl). The multiplier is concrete per harness.",
         "design": "5/C11",
     },
     "C12": {
@@ -31,7 +31,7 @@ CHECKS = {
         "design": "5/C12",
     },
     "C16": {
-        "text": "Duplicate window (SlidingWindow: pointwise set model with symbolic witness, full domain), Cursors::handle_reader_fin (the four RFC 9000 4.5 cases, full), Interval algebra (full), Reassembler allocation helpers (full), Slot operations (bounded 8-byte buffers), and -- as one-step inductive obligations from arbitrary well-formed states of concrete shape -- IntervalSet::{insert, insert_front, remove, pop_min, observers} (K <= 2, thorough), the modular Reassembler pop / skip / observers (K <= 2, thorough) and the packet-number map remove (K <= 3, thorough) are discharged on the real code by Kani/CBMC. Deviations found on the pinned code (Interval::from_range_bounds with an excluded start bound; IntervalSet::remove off-by-one at the limit) are strict obligations with residuals (known findings).",
+        "text": "Duplicate window (SlidingWindow: pointwise set model with symbolic witness, full domain), Cursors::handle_reader_fin (the four RFC 9000 4.5 cases, full), Interval algebra (full), Reassembler allocation helpers (full), Slot operations (bounded 8-byte buffers), and -- as one-step inductive obligations from arbitrary well-formed states of concrete shape -- IntervalSet::{insert, insert_front, remove, pop_min, observers} (K <= 2, thorough), the modular Reassembler pop / skip / observers (K <= 2; K = 0 quick), the packet-number map remove (K <= 3, thorough) and insert_or_update (ring of 8 with 2 entries, one quick shape) are discharged on the real code by Kani/CBMC. Deviations found on the pinned code (Interval::from_range_bounds with an excluded start bound; IntervalSet::remove off-by-one at the limit) are strict obligations with residuals (known findings).",
         "note": "Bounded obligations cover histories in which the container never exceeds the stated K. NOT discharged: Reassembler write path, ack::Ranges::insert_packet_number_range, packet-number map insert / remove_range (CBMC time/crash); IntervalSet's dev self-check is stubbed and its content asserted by the harness.",
         "design": "5/C16",
     },
@@ -41,8 +41,8 @@ CHECKS = {
         "design": "5/C13",
     },
     "C09": {
-        "text": "Core kernels of RFC 9002 are under contract on the real code: loss::detect (sound up to the timer granularity: Lost => distance >= 3 or now + 1 ms > sent + threshold; now >= sent + threshold => Lost; distance >= 3 => Lost; the strict statement of the property is kept as an obligation and is a recorded known finding with its residual), Timestamp::has_elapsed, RttEstimator::{loss_time_threshold, update_rtt, weighted_average, pto_period, persistent_congestion_threshold} against exact integer formulas, Pto::{on_timeout, update, cancel, transmissions} with the frame condition that a PTO expiry touches no sent-packet state; discharged by Kani/CBMC (full domain where no Duration arithmetic is symbolic, otherwise bounded to RTT quantities < 4 s and labelled). Verus proves for every history of sent/acked/lost/discarded/PTO events that each packet is resolved exactly once, bytes_in_flight == sum of unresolved >= 0, and the PTO backoff doubles.",
-        "note": "Timestamp + Duration inside loss::detect is replaced (kani::stub) by its contract, which is checked only on a table of concrete instants (symbolic Duration round trips are SAT-hard): assumed dependency contract, listed. recovery::Manager (the caller that walks the sent-packet map, picks the path's RTT estimator and feeds the congestion controller) is NOT under contract: changes confined to it are not detected. The sent-packet map is bounded (K <= 3, thorough tier; insert could not be executed by CBMC).",
+        "text": "Core kernels of RFC 9002 are under contract on the real code: loss::detect (sound up to the timer granularity: Lost => distance >= 3 or now + 1 ms > sent + threshold; now >= sent + threshold => Lost; distance >= 3 => Lost; the strict statement of the property is kept as an obligation and is a recorded known finding with its residual), Timestamp::has_elapsed, RttEstimator::{loss_time_threshold, update_rtt, weighted_average, pto_period, persistent_congestion_threshold} against exact integer formulas, Pto::{on_timeout, update, cancel, transmissions} with the frame condition that a PTO expiry touches no sent-packet state, and three private functions of recovery::Manager on the state process_acks hands them (process_new_acked_packets: every newly acked packet reaches the congestion controller exactly once whether or not the ACK is a new largest; detect_lost_packets: the time threshold is that of the path the packet was sent on; on_retry_packet: exactly the sent Initial bytes are discarded; bounded scenarios); discharged by Kani/CBMC (full domain where no Duration arithmetic is symbolic, otherwise bounded to RTT quantities < 4 s and labelled). Verus proves for every history of sent/acked/lost/discarded/PTO events that each packet is resolved exactly once, bytes_in_flight == sum of unresolved >= 0, and the PTO backoff doubles.",
+        "note": "Timestamp + Duration inside loss::detect is replaced (kani::stub) by its contract, which is checked only on a table of concrete instants (symbolic Duration round trips are SAT-hard): assumed dependency contract, listed. recovery::Manager as a whole (process_acks end to end: the glue between process_ack_range, update_congestion_control and the contracted functions, PTO arming) is NOT under contract -- the whole-scenario harnesses gave no result in 45-50 min (niche-encoded Option in the boxed ring makes every map walk symbolic). The sent-packet map is bounded (K <= 3, thorough tier; insert could not be executed by CBMC).",
         "design": "5/C09",
     },
     "C10": {
